@@ -28,6 +28,27 @@ CHECKS = {
         note='Trusted: mc/ref/glushkov.py (170 lines), the 9-symbol partition of names for wildcard overlap. Nothing is claimed beyond the '
              'enumerated bound. ~12.9k models on which the library heuristics (models.py distinguishable_paths/check_model) disagree with '
              'UPA are listed per model in known_findings.jsonl.'),
+    'C12': dict(
+        technique='exhaustive enumeration of the allow x source-kind x mechanism x spelling product; realpath-based reference; audit-hook observation of every open/urllib.Request',
+        text='Model checking by complete enumeration of a finite configuration product: 5 allow modes x 7 main-source kinds x 12 reference '
+             'mechanisms (include, import with 3 loaders, redefine, override, include->import chain, location hints on element/root, locations=, '
+             'uri_mapper dict/callable) x 14 location spellings (+16 more: all in thorough, a seed-selected quarter in quick) x both processors. '
+             'Every file/URL access of the real code is observed with sys.addaudithook and a stub opener and judged by a realpath/commonpath '
+             'reference; influence of a denied file is observed through uniquely named elements.',
+        design_ref='DESIGN.md section 2, C12',
+        note='Trusted: mc/ref/access.py (110 lines), the audit hook seeing every open()/urllib.Request (os.stat probing is not judged). '
+             'Symlink-free fixture trees; nesting depth 2; spellings whose reading RFC 3986 leaves open are counted, not judged.'),
+    'C13': dict(
+        technique='exhaustive enumeration of the defuse-mode x channel x locality x role x payload product; differential against defuse=never; audit-hook observation',
+        text='Model checking by complete enumeration of a finite product: 4 defuse modes x 12 input channels (text, bytes, seekable and '
+             'non-seekable streams, path, file URL, http through a stub opener passed and installed globally) x 3 base_url localities x 5 roles '
+             '(resource, validate, main/included/imported schema) x 25 DTD payloads (entity kinds, external subsets, nesting, 64K/200K prologs, '
+             'BOM/UTF-16/ISO-8859-1), plus lazy resources and XSD 1.1 (all in thorough, a seed-selected quarter in quick). Oracle: defusing applies '
+             'and the payload declares => forbidden-resource error, no access to any system id, no expansion marker; otherwise same tree as defuse=never.',
+        design_ref='DESIGN.md section 2, C13',
+        note='Trusted: the reading of when nonlocal/remote apply (stated in the evidence assumptions), the audit hook. One open cell (local file '
+             'object without base_url under nonlocal) is counted, not judged. Known finding: root start tag beyond the 64 KiB DefusableReader buffer on '
+             'non-seekable streams is refused with XMLResourceOSError.'),
 }
 
 PENDING_REASON = 'check not built yet in this session; the design (DESIGN.md section 2) applies bounded exhaustive exploration to it'
